@@ -39,6 +39,9 @@ def hidden_state_inventory(ctx, rule, rs_cells):
                 ctx.ok(rule, key, "-", "%s holds the struct %s whose fields are accounted for individually" % (name, inner_adt), kind="S")
             elif (adt["id"], f["name"]) not in written:
                 ctx.ok(rule, key, "-", "%s is not written on the search/tokenise path" % name, kind="S")
+            elif _diagnostic(ctx, reach, adt["id"], f["name"])[0]:
+                ctx.ok(rule, key, "-", "%s is diagnostic state: on the search path it is only written, or read to compute the value "
+                       "written back into itself (a counter); no result can depend on it" % name, nontrivial=True, kind="S")
             else:
                 ctx.fail(rule, key, "-", "interior-mutable cell %s is written on the &self search path but is neither a "
                          "reset-before-read scratch buffer, a validated memo cell nor a nested struct: hidden state" % name,
@@ -61,6 +64,11 @@ def hidden_state_inventory(ctx, rule, rs_cells):
             ctx.ok(rule, key, "-", "%s is a scratch buffer checked by RS" % name, kind="S")
         elif a.endswith("DistMatrix"):
             ctx.ok(rule, key, "-", "%s belongs to the distance matrix (R10.d)" % name, kind="S")
+        elif U.adt_of(facts, fdef[0]["ty"]) in facts.adts and facts.adts[U.adt_of(facts, fdef[0]["ty"])]["kind"] == "struct":
+            ctx.ok(rule, key, "-", "%s holds a struct whose fields are accounted for individually" % name, kind="S")
+        elif _diagnostic(ctx, reach, a, fname)[0]:
+            ctx.ok(rule, key, "-", "%s is diagnostic state: on the search path it is only written, or read to compute the value "
+                   "written back into itself (a counter); no result can depend on it" % name, nontrivial=True, kind="S")
         else:
             wb = None
             for r in roots:
@@ -83,10 +91,35 @@ def hidden_state_inventory(ctx, rule, rs_cells):
             ctx.ok(rule, key, "-", "thread-local %s is a scratch buffer checked by RS" % k, kind="S")
         elif pt.get("k") == "adt" and pt["did"] in facts.adts:
             ctx.ok(rule, key, "-", "thread-local %s holds the struct %s whose cells are accounted for individually" % (k, pt["did"]), kind="S")
+        elif _diagnostic_tls(ctx, reach, k)[0]:
+            ctx.ok(rule, key, "-", "thread-local %s is diagnostic state: only written (or read to update itself) on the search path" % k,
+                   nontrivial=True, kind="S")
         else:
             ctx.fail(rule, key, "-", "thread-local %s (payload %s) is used on the search path and is not covered by RS" % (k, payload),
                      kind="S")
     ctx.floor(rule, "interior_mutable_cells", n, 4)
+
+
+def _diagnostic(ctx, reach, adt_id, fname):
+    bodies = [ctx.facts.bodies[x] for x in reach if x in ctx.facts.bodies]
+
+    def is_state(e):
+        return isinstance(e, tuple) and len(e) > 3 and e[0] == "field" and str(e[2]) == fname and e[3] == adt_id
+    return RS.value_never_leaves(ctx, bodies, is_state)
+
+
+def _diagnostic_tls(ctx, reach, key):
+    """the thread-local's cell is only handed to closures that write it / update it from itself"""
+    bodies = []
+    for (b, bi, t, k, cid) in ctx.model.tls_sites:
+        if k == key and cid in ctx.facts.bodies and b.id in reach:
+            bodies.append(ctx.facts.bodies[cid])
+    if not bodies:
+        return False, "no accessor"
+
+    def is_state(e):
+        return e == ("arg", 2) or (isinstance(e, tuple) and e and e[0] == "deref" and e[1] == ("arg", 2))
+    return RS.value_never_leaves(ctx, bodies, is_state)
 
 
 def _singletons(ctx):
